@@ -90,15 +90,20 @@ CHECKS_K1 = {
                 "buffer_with_time_or_count_ are proved to be the corresponding window operator with the same arguments followed by "
                 "flat_map(to_list) (+ the non-empty filter of the count form): each buffer is the contents of its window (to_list / "
                 "flat_map contracts: C06 / C11). window_toggle_ is proved to be group_join over the openings (source joined, windows "
-                "live as long as closing_mapper(opening), elements retained for empty()); group_join itself is NOT under contract: the "
-                "toggle rule is decided by a bounded stand-in (winrun.py grid) - which reports the listed known finding: the source's "
-                "completion neither ends the open toggle windows nor the output.",
+                "live as long as closing_mapper(opening), elements retained for empty()), and group_join_ itself is under contract "
+                "(session 4): two abstract maps (id -> window subject, id -> retained right element), two handler families (left / right "
+                "durations behind take(1), member invariants with the rely proved for members of both families), every right element to "
+                "every open window, the retained elements replayed in order into a new window, errors end every open window and the "
+                "output, a spent duration is deaf; the snapshot obligation found the second 'live map walked while notifying' defect "
+                "(fixed). The spec machine states the REAL contract of group_join (the right side's completion is ignored, the left side's "
+                "completion ends the output only); against the PROPERTY's toggle rule the bounded stand-in (winrun.py grid) reports the "
+                "listed known finding: the source's completion neither ends the open toggle windows nor the output.",
         "note": _K1_NOTE + _HO_NOTE + " A-time / A-time-step as in C16 (timedelta(seconds=x) is x ticks). The order between a notification sent to a "
                 "window and an element handed to the downstream observer inside one step is not compared (two channels). window_with_time: "
                 "the machine has no terminated state (its timer chain goes on until the subscription is released, unobservably - C01/C02). "
                 "Requires timespan >= 1 and timeshift >= 1. A raising closing_mapper of window_when ends the output but leaves the window just "
                 "opened without a terminal (real code and spec agree; noted in DESIGN §9). Ties at equal virtual instants are the "
-                "scheduler's (C28). join / group_join: not under contract (bounded stand-in for the toggle rule only).",
+                "scheduler's (C28). join: not under contract (no property anchors it).",
         "technique": "K1 / K1-T handler refinement with subject channels, sequences of open windows, loop invariants, timer and handler families; spec-state invariants with div/mod closed forms + K8 lemma; wiring contracts; bounded stand-in for toggle; SMT",
     },
     "C19": {
